@@ -360,7 +360,7 @@ Definition WInv (w : world) : Prop :=
 Lemma wstep_inv : forall w o, WInv w -> WInv (wstep w o).
 Proof.
   intros [cbs reg|] o H; [|contradiction]. destruct H as [H1 H2].
-  destruct o as [p pe|p]; cbn [wstep].
+  destruct o as [p pe|p|p]; cbn [wstep]; [| |split; assumption].
   - destruct (reg_get reg p) as [pe0|] eqn:G; [split; assumption|].
     unfold pool_subscribe. split.
     + intros c q. rewrite nd_subscribe_all, H1. cbn [reg_get]. destruct (p =? q) eqn:E.
